@@ -87,7 +87,7 @@ def iter_dispatches(run):
   prediction; for hosts without the dispatch marker the whole op is one segment"""
   for i, ob in enumerate(run.steps):
     ps = preds_of(ob)
-    if ps is None or ob.op[0] == 'start':
+    if ps is None or ob.op[0] in ('start', 'restart'):
       continue
     segs = segments(ob)
     if run.host in ('plain', 'instrumented'):
@@ -173,15 +173,19 @@ def check_transitions(run, res, want=('C01', 'C02')):
 
 def check_start(run, res):
   """C03"""
-  if not run.steps:
-    return
-  ob = run.steps[0]
+  for ob in run.steps:
+    if ob.op[0] in ('start', 'restart'):
+      if _check_start_op(run, res, ob) is False:
+        return
+
+
+def _check_start_op(run, res, ob):
   pred = ob.pred
   if pred is None:
-    return
+    return False
   if ob.exc is not None:
     res.violate('start-raised', {'exc': ob.exc}, 'start_at(%s) raised %s\n%s' % (ob.op[1], ob.exc, ob.tb))
-    return
+    return False
   recs = [r for r in ob.recs if r[0] != 'dispatch']
   # an active object dispatches meta events right after start; only records up to the
   # first dispatch marker belong to start_at
@@ -197,18 +201,20 @@ def check_start(run, res):
     if d is not None:
       res.violate('start-sequence', {'phase': _phase(pred, pred['calls'], d), 'level': 'calls'},
                   'start_at(%s) host=%s build=%s\n expected calls %s\n observed calls %s' % (ob.op[1], run.host, run.build.kind, pred['calls'], got))
-      return
+      return False
   acts = obs_actions(recs)
   d = _first_diff(pred['actions'], acts)
   if d is not None:
     res.violate('start-sequence', {'phase': pred['actions'][d][0] if d < len(pred['actions']) else 'extra', 'level': 'actions'},
                 'start_at(%s) host=%s build=%s\n expected actions %s\n observed actions %s' % (ob.op[1], run.host, run.build.kind, pred['actions'], acts))
-    return
+    return False
   if any(a[0] == 'exit' for a in acts):
     res.violate('start-exited', {}, 'start_at exited a state: %s' % acts)
-    return
+    return False
   if ob.state != pred['new']:
     res.violate('start-resting-state', {}, 'start_at(%s) rests in %s, expected %s' % (ob.op[1], ob.state, pred['new']))
+    return False
+  return True
 
 
 def transition_signatures(run):
@@ -586,9 +592,13 @@ def check_live(run, res):
         res.violate('live-spy', {'op': k, 'got': 'fewer' if len(ob.live_spy) < len(new) else ('more' if len(ob.live_spy) > len(new) else 'different')},
                     '%s: the steps produced the spy lines %s but the live spy callback received %s (first difference at %s)' % (head, new, ob.live_spy, d))
         return
-    if sc.get('live_trace') and ob.trace is not None and len(ob.trace) < TRC:
-      before = ob.trace_before if (k != 'start' and ob.trace_before is not None) else []
-      new = ob.trace[len(before):]
+    if sc.get('live_trace') and ob.trace is not None:
+      # new records are told from old ones by object identity (the ring may have wrapped: its length says nothing)
+      before = ob.trace_objs_before if (k != 'start' and ob.trace_objs_before is not None) else []
+      old_ids = set(id(o) for o in before)
+      new = [t for t, o in zip(ob.trace, ob.trace_objs) if id(o) not in old_ids]
+      if len(ob.trace) >= TRC and len(new) == len(ob.trace) and before:
+        continue      # more new records than the ring holds: some were pushed out unseen
       if len(ob.live_trace) != len(new):
         res.violate('live-trace', {'op': 'start' if k == 'start' else 'step', 'got': 'fewer' if len(ob.live_trace) < len(new) else 'more'},
                     '%s: %d new trace record(s) %s but the live trace callback was called %d time(s): %s' % (
